@@ -96,7 +96,8 @@ Definition insert_at (m : smap) (i : nat) (v : name) : option name * smap :=
    {| entries := set_nth i (Some v) (grow (entries m) i); indices := (v, i) :: indices m |}).
 
 (* fn insert(string_map, id, idx) -> Result<(), ParseError>;
-   None = Err(ParseError::StringMapPositionMismatch(..)) *)
+   None = Err(ParseError::StringMapPositionMismatch(..)): the ID is known at another position, or
+   (fix 09) the ID is new and its explicit position is held by another entry *)
 Definition insert (m : smap) (id : name) (idx : option nat) : option smap :=
   match idx with
   | Some i =>
@@ -104,7 +105,13 @@ Definition insert (m : smap) (id : name) (idx : option nat) : option smap :=
       | Some (j, entry) =>
           (* actual = (i, id), expected = (j, entry); if actual != expected -> Err *)
           if Nat.eqb i j && name_eqb id entry then Some m else None
-      | None => Some (snd (insert_at m i id))
+      | None =>
+          (* else if let Some(entry) = string_map.get_index(i): the position is already taken by
+             a different entry -> Err(StringMapPositionMismatch((i, id), (i, entry))) (fix 09) *)
+          match get_index m i with
+          | Some _ => None
+          | None => Some (snd (insert_at m i id))
+          end
       end
   | None => Some (sm_insert m id)
   end.
